@@ -26,6 +26,7 @@ type yieldState struct {
 	pct     int
 	held    map[*websocket.Conn]bool // model of closeMu: a goroutine is past the gate
 	names   map[*websocket.Conn]string
+	waiters map[*websocket.Conn][]chan struct{} // goroutines blocked at the closeMu gate, in arrival order
 	live    bool
 }
 
@@ -34,7 +35,7 @@ type yieldState struct {
 // library was built with -tags verif.
 func (r *Run) DrawYields() {
 	t := r.Tape
-	y := &yieldState{enabled: map[string]bool{}, held: map[*websocket.Conn]bool{}, names: map[*websocket.Conn]string{}}
+	y := &yieldState{enabled: map[string]bool{}, held: map[*websocket.Conn]bool{}, names: map[*websocket.Conn]string{}, waiters: map[*websocket.Conn][]chan struct{}{}}
 	mode := t.Weighted(4, 4, 2) // 0 off, 1 a subset, 2 all sites
 	y.pct = []int{15, 40, 80}[t.Draw(3)]
 	switch mode {
@@ -74,18 +75,27 @@ func (r *Run) yield(point string, c *websocket.Conn) {
 		// Lock model: nobody may block on closeMu (a sync.Mutex wait is not a
 		// durable block) while its holder can be parked. So every acquisition
 		// passes this gate, whatever sites are enabled.
+		// A goroutine that finds the gate busy waits outside the scheduler's books
+		// (a private channel: a durable block, no entry, no draw, no log line) and
+		// gets the mutex handed over by the goroutine that releases it, in the same
+		// scheduler step. Whether such a waiter exists at all is often the runtime's
+		// choice and not the tape's: timeoutLoop's select has both 'closed' and
+		// 'context done' ready and only one of the two calls close() - on a
+		// connection that is closed already, where the call does nothing. Kept out
+		// of the books, that coin no longer shifts every later draw of the run.
 		r.S.Lock()
-		name := r.connName(c)
+		r.connName(c)
 		busy := y.held[c]
+		var ch chan struct{}
 		if !busy {
 			y.held[c] = true
+		} else {
+			ch = make(chan struct{})
+			y.waiters[c] = append(y.waiters[c], ch)
 		}
 		r.S.Unlock()
 		if busy {
-			r.S.ParkE("y.closeMu.wait@"+name+"/"+r.S.WhoAmI(), func() bool { return !y.held[c] }, nil)
-			r.S.Lock()
-			y.held[c] = true
-			r.S.Unlock()
+			<-ch
 			r.S.Count("probe.yield.closeMu-contended")
 			return
 		}
@@ -107,7 +117,13 @@ func (r *Run) note(point string, c *websocket.Conn) {
 	}
 	if point == "closeMu.released" {
 		r.S.Lock()
-		y.held[c] = false
+		if w := y.waiters[c]; len(w) > 0 {
+			// (stays held: handed over to the first waiter)
+			y.waiters[c] = w[1:]
+			close(w[0])
+		} else {
+			y.held[c] = false
+		}
 		r.S.Unlock()
 		r.S.Kick()
 	}
